@@ -63,11 +63,16 @@ CLAIMS["C13"] = dict(
         "model vs PythonParserGenerator on grammars with a defect planted at every syntactic position (17 contexts and "
         "nested pairs, whole-body groups, every token kind). The second half: C13_every_reference_resolves -- for every module "
         "whose calls all name one of its methods or a runtime primitive (refs_ok, decidable), no run on any input, "
-        "configuration, fuel or state ends in AttributeError; refs_ok is evaluated every run on the module the generator "
+        "configuration, fuel or state ends in AttributeError; and C13_generated_modules_resolve_every_reference (Proofs/GenRefs.v): "
+        "for EVERY grammar whose leaf names are rules or token kinds the call maker knows and whose literals are quoted, every "
+        "module the generator model emits satisfies refs_ok -- each self.n() names a rule, a helper rule the generator queued "
+        "and then emits (invariant over the call maker, its node cache and the work list) or a runtime primitive; the hypothesis "
+        "is evaluated in Coq on every shipped .gram file on every run; refs_ok is "
+        "also evaluated every run on the module the generator "
         "model produces for each accepted grammar (model tied to the generator by K-gen), and the real parsers are run over "
         "accepted grammars x inputs (also a second generation from the same grammar object) in a sandboxed child process; "
         "one known finding (token names without a runtime primitive).",
-   design="6/C13", technique="Coq proofs (up-front check parametric in extracted tables; reference resolution of the IR interpreter) + instance lemmas + correspondence on planted defects + execution of accepted grammars",
+   design="6/C13", technique="Coq proofs (up-front check parametric in extracted tables; reference resolution of the IR interpreter; every module the generator model emits resolves its references, by an invariant over the call maker and its work list) + instance lemmas + correspondence on planted defects + execution of accepted grammars",
    note="NameError from an ACTION (an unbound name in user code) is outside the theorem; it depends on the action text.")
 CLAIMS["C03"] = dict(
    text="Coq theorems (Props/C03.v), for every monotone method table, every grammar and every rule order: the rule flags "
@@ -104,7 +109,11 @@ CLAIMS["C05"] = dict(
         "generated IR): for every well-formed IR module (decidable ir_wf), every token list, verbose on/off, cache "
         "on/off, every truthy interpretation of actions, every fuel and every reachable state, each invocation that "
         "yields a falsy value leaves the cursor unchanged, successful ones never move it backwards, lookahead helpers "
-        "never move it, and the cache only holds such entries (induction on fuel with a cache invariant). The model is "
+        "never move it, and the cache only holds such entries (induction on fuel with a cache invariant). "
+        "C05_generated_parsers_keep_the_position_invariant (Proofs/GenWf.v): ir_wf holds of EVERY module the generator model emits "
+        "for a grammar whose forced items stand directly among the items of alternatives, without a repetition of a cut and "
+        "without underscore rule names -- so the invariant holds for every parser generated from such a grammar; that shape is "
+        "evaluated in Coq on every .gram file shipped with the repository (python.gram, metagrammar.gram ...) on every run. The model is "
         "tied to parser.py and the generated code by K-run: outcome, value, position, tokens fetched and the WHOLE "
         "per-invocation event trace of real generated parsers (wrapped from outside) must equal the model's under the "
         "four configurations. The same invariant is monitored on the real parsers incl. the shipped meta-grammar parser "
@@ -126,7 +135,9 @@ CLAIMS["C04"] = dict(
         "outcome (value, failure, or exception incl. the token a SyntaxError points at) and, on a normal outcome, the same "
         "position and furthest token fetched -- by three inductions over the interpreter (more fuel never changes an answer; "
         "the uncached run reads its state only through the position; simulation whose invariant says every memo entry is what "
-        "the uncached invocation at its position returns).",
+        "the uncached invocation at its position returns); and at the level of the generator "
+        "(C04_generated_parsers_without_leaders_are_cache_transparent, Proofs/GenDeco.v): for every grammar in which the analysis "
+        "finds no leader the emitted module has no @memoize_left_rec method, so the theorem applies to its parser.",
    design="6/C04", technique="Coq proof of cache transparency (fuel monotonicity + state-independence + simulation) for modules without leaders, refutation witnesses for the verbose and error-mode cases, cache-consistency invariant + four-configuration trace correspondence (normal and error mode)",
    note="Partial: the transparency theorem excludes left-recursive leaders (their seed growing reads and overwrites the cache "
         "by design: covered by the C02 theorems and the four-configuration correspondence), verbose tracing and error mode with *_without_invalid "
@@ -142,10 +153,13 @@ CLAIMS["C11"] = dict(
         "explored grammar. Tie: K-gen/K-run; on the implementation: hard/soft keywords hidden at 15 syntactic positions (also "
         "with both quote styles, non-ASCII letters, names of the token module, a second generation from the same grammar "
         "object) must appear in the tables and NAME/SOFT_KEYWORD must accept/reject accordingly.",
-   design="6/C11", technique="Coq theorems on the primitive tests and on the keyword traversal + refutation witnesses + per-grammar table validation + positional keyword sweep with K-run correspondence",
-   note="Partial: that the GENERATOR collects every literal (its work-list over helper rules) is not proved for all grammars; "
-        "its output is validated against the proved-complete traversal on every explored grammar. The model's identifier test "
-        "is ASCII (non-ASCII keywords are covered on the implementation only).")
+   design="6/C11", technique="Coq theorems on the primitive tests, on the keyword traversal and on the generator (its tables are exactly the quoted words, for all grammars) + refutation witnesses + per-grammar table validation + positional keyword sweep with K-run correspondence",
+   note="C11_generated_keyword_tables_are_exactly_the_quoted_words (Proofs/GenKw.v, GenKwSound.v): for EVERY grammar whose "
+        "repetition/gather/group nodes have pairwise distinct identities, the KEYWORDS / SOFT_KEYWORDS tables of the module the "
+        "generator MODEL emits have exactly the members of hard_keywords / soft_keywords (both inclusions; invariant over the call "
+        "maker, its node cache and the work list); distinctness of identities is evaluated in Coq on every shipped .gram file each run; "
+        "the real generator's tables are compared with them on every explored grammar. "
+        "The model's identifier test is ASCII (non-ASCII keywords are covered on the implementation only).")
 CLAIMS["C12"] = dict(
    text="Coq theorems (Props/C12.v): (1) for every module, input, configuration, fuel and state, every invocation that returns "
         "leaves call_invalid_rules as it found it (without_invalid methods clear it for their body and restore it on match, "
@@ -154,7 +168,9 @@ CLAIMS["C12"] = dict(
         "generated module and the module with every guarded alternative deleted compute the same outcome, position, tokens "
         "fetched, cache and invocation trace, for every method, input, configuration and fuel; (3) under decidable conditions on "
         "the InvalidNodeVisitor table extracted from the source each run (re-proved as instance lemmas), the guard is emitted "
-        "exactly for alternatives mentioning an invalid* name at ANY nesting depth. Tie: K-gen/K-run. On the implementation: "
+        "exactly for alternatives mentioning an invalid* name at ANY nesting depth -- also stated for the generator itself "
+        "(C12_generated_guards_are_exact: whatever rule emit_rule emits, original or helper, in whatever state, the k-th "
+        "alternative of the method is guarded iff the k-th alternative of the flattened rule body mentions such a name). Tie: K-gen/K-run. On the implementation: "
         "parser(G) with the flag off equals parser(G minus those alternatives) on enumerated inputs for 14 placements, no "
         "invalid_ rule is invoked with the flag off, and the flag is monitored at every call in both modes.",
    design="6/C12", technique="Coq proofs (flag preservation and whole-program strip equivalence by induction on fuel; detector exactness via table simulation) + strip-equivalence sweep",
@@ -177,7 +193,9 @@ CLAIMS["C02"] = dict(
         "cached seed rk to r(k+1) and, from rn, fails or makes no progress, the loop returns exactly rn, leaves the cursor at "
         "its end and records it -- 'the longest match obtained by repeatedly re-evaluating the alternatives with the previous "
         "result substituted for the recursive call'; (3) C02_growth_terminates: with more fuel than positions left the loop "
-        "never runs out of fuel. Examples show the hypotheses satisfiable and two growth steps with the left-nested tree on "
+        "never runs out of fuel; (4) about the generator (Proofs/GenDeco.v): whatever original rule it emits, a rule the analysis "
+        "marked left-recursive is decorated @memoize_left_rec exactly when it is the chosen leader and @logger otherwise, and only "
+        "such leaders ever grow a seed. Examples show the hypotheses satisfiable and two growth steps with the left-nested tree on "
         "a real module. Tie: K-gen (decorator choice incl. helper rules) and K-run with event traces through growth. On the "
         "implementation: left-recursive families (recursive reference bare/named/grouped/behind lookahead/behind nullable "
         "rule/in optional/in loop; cycles of 2-3 rules entered at any member, one member also self-recursive; helpers inside "
